@@ -749,6 +749,113 @@ def check_iterator_present(ctx, unit, rule="E.iterator-present"):
                     if idx_same and node_same:
                         ok, why = True, "mask bit tested for this leaf and index"
             if not ok:
+                # path by path: a small forward analysis over (index-like variable -> "its mask bit was seen set" / "it is
+                # >= 16"), copied along assignments and through the value a folded search helper returns; a guard `x < 16`
+                # prunes the paths on which x is known >= 16 (`idx = first_slot(from, pred); if(idx < 16) return {n, idx};`)
+                seen_states = []
+
+                def keyof_(x):
+                    x = std_unwrap(x)
+                    hops = 0
+                    while x.kind in ("ImplicitCastExpr", "CStyleCastExpr", "CXXStaticCastExpr", "ParenExpr") and x.children and hops < 6:
+                        x, hops = std_unwrap(x.children[0]), hops + 1
+                    if x.kind == "DeclRefExpr" and x.get("local"):
+                        return ("v", x.d["d"])
+                    p_ = path(x)
+                    if p_ and p_[-1] == "_idx":
+                        return ("p",) + tuple(p_)
+                    return None
+
+                def value_key(e):
+                    from .ir import value_leaves as _vl3
+                    ls = _vl3(f, e)
+                    return keyof_(ls[0]) if len(ls) == 1 else None
+
+                def tr_(n, st):
+                    if n.id == at.id:
+                        seen_states.append(st)
+                    tgt, rhs = None, None
+                    if n.kind == "BinaryOperator" and n.op == "=":
+                        tgt, rhs = keyof_(n.children[0]), n.children[1]
+                    elif n.kind == "DeclStmt":
+                        for d_ in n.get("decls", []):
+                            if "init" in d_:
+                                st = tr_assign(st, ("v", d_["d"]), f.node(d_["init"]))
+                        return [st]
+                    elif n.kind == "ParamBind" and n.d.get("init") is not None:
+                        return [tr_assign(st, ("v", n.d["d"]), f.node(n.d["init"]))]
+                    elif n.kind in ("UnaryOperator", "CompoundAssignOperator") and n.get("op") in ("++", "--", "+=", "-=") and n.children:
+                        k_ = keyof_(n.children[0])
+                        if k_ is not None:
+                            return [frozenset(x for x in st if x[1] != k_)]
+                    if tgt is not None:
+                        return [tr_assign(st, tgt, rhs)]
+                    return [st]
+
+                def tr_assign(st, tgt, rhs):
+                    st = frozenset(x for x in st if x[1] != tgt)
+                    src = value_key(rhs)
+                    if src is not None and src != tgt:
+                        st = st | frozenset((x[0], tgt) for x in st if x[1] == src)
+                    elif std_unwrap(rhs).cv() is not None and std_unwrap(rhs).cv() >= 16:
+                        st = st | {("ge", tgt)}
+                    return st
+
+                def rf_(cond, truth, st):
+                    cs = cond.strip()
+                    t = truth
+                    if cs.kind == "BinaryOperator" and cs.op == "&&" and not t:
+                        # (A && B) false where A is known true on this path: B is false
+                        a0, b0 = cs.children[0], cs.children[1]
+                        ra = flow.fact_relation(a0, True)
+                        if ra is not None and ra[1] == "<" and keyof_(ra[0]) is not None and std_unwrap(ra[2]).cv() == 16 \
+                                and ("lt", keyof_(ra[0])) in st:
+                            return rf_(b0, False, st)
+                        return [st]
+                    if cs.kind == "BinaryOperator" and cs.op == "&&" and t:
+                        out_ = [st]
+                        for part in (cs.children[0], cs.children[1]):
+                            out_ = [s2 for s1 in out_ for s2 in rf_(part, True, s1)]
+                        return out_
+                    while cs.kind == "UnaryOperator" and cs.op == "!":
+                        cs, t = cs.children[0].strip(), not t
+                    hops = 0
+                    while cs.d.get("inlined") and isinstance(cs.d.get("rets"), list) and len(cs.d["rets"]) == 1 and hops < 4:
+                        cs, hops = f.node(cs.d["rets"][0]).strip(), hops + 1
+                        while cs.kind == "UnaryOperator" and cs.op == "!":
+                            cs, t = cs.children[0].strip(), not t
+                    bt = _bit_test(cs) if t else None
+                    if bt is not None:
+                        mo = _mask_owner(f, bt[0])
+                        node_same = mo is not None and (mo == ncanon or (inode is None and mo in ("this._n", canon_this_n(f))))
+                        k_ = keyof_(bt[1])
+                        if node_same and k_ is not None:
+                            return [st | {("bit", k_)}]
+                    rel = flow.fact_relation(cond, truth)
+                    if rel is not None:
+                        a_, op_, b_ = rel
+                        ka, kb = keyof_(a_), keyof_(b_)
+                        ca, cb_ = std_unwrap(a_).cv(), std_unwrap(b_).cv()
+                        # x < 16 true with x known >= 16: not this path;  16 <= x (x < 16 false): x >= 16
+                        if op_ in ("<",) and ka is not None and cb_ == 16 and ("ge", ka) in st:
+                            return []
+                        if op_ == "<" and ka is not None and cb_ == 16:
+                            return [st | {("lt", ka)}]
+                        if op_ == "!=" and ka is not None and cb_ == 16 and ("ge", ka) in st:
+                            return []
+                        if op_ == "<=" and kb is not None and ca == 16:
+                            return [st | {("ge", kb)}]
+                        if op_ == "==" and ka is not None and cb_ == 16:
+                            return [st | {("ge", ka)}]
+                    return [st]
+                try:
+                    flow.run(f, [frozenset()], tr_, rf_, limit=100000)
+                    want = ("p", "this", "_idx") if inode is None else keyof_(inode)
+                    if want is not None and seen_states and all(("bit", want) in st_ for st_ in seen_states):
+                        ok, why = True, "on every path to this position the mask bit of its index was seen set (followed through the search helper)"
+                except flow.TooManyStates:
+                    pass
+            if not ok:
                 # index = count of trailing zeros of M, with M known non-zero on this path
                 tz = None
                 if inode is not None:
